@@ -2,6 +2,7 @@ package checks
 
 import (
 	"fmt"
+	"github.com/cnotch/ipchub/config"
 	"io"
 	"net/http"
 	"strings"
@@ -35,6 +36,7 @@ type c20env struct {
 	longFails int64
 	slowWaits int64
 	retries   int64
+	progress  int64 // media units received by the requester of the current single-requester scenario
 }
 
 func (e *c20env) extra() time.Duration {
@@ -129,6 +131,7 @@ func (e *c20env) requesterFLV(path string, until <-chan struct{}) chan c20outcom
 			for {
 				k, err := resp.Body.Read(buf)
 				n += k
+				atomic.AddInt64(&e.progress, int64(k))
 				if err != nil {
 					close(done)
 					return
@@ -189,6 +192,7 @@ func (e *c20env) requesterRTSP(path string, until <-chan struct{}) chan c20outco
 			}
 			if it.Frame != nil && it.Frame.Channel == 0 && len(it.Frame.Data) >= 12 {
 				out.frames++
+				atomic.AddInt64(&e.progress, 1)
 				ts := uint32(it.Frame.Data[4])<<24 | uint32(it.Frame.Data[5])<<16 | uint32(it.Frame.Data[6])<<8 | uint32(it.Frame.Data[7])
 				out.ids = append(out.ids, ts/3600)
 			}
@@ -219,8 +223,11 @@ func (e *c20env) clean(cam *kit.FakeCam, path string) (bool, string) {
 }
 
 func runC20(c *kit.Ctx) {
+	// The server runs with a long network timeout (the multiplexed listener takes a third of it as the time a new
+	// connection has to show its first bytes); only scripts in which the camera goes silent switch to the short one,
+	// so that no verdict depends on the camera, the server and the requester being scheduled within 1.2 s of each other.
 	timeout := 1200 * time.Millisecond
-	srv := kit.StartServer(false, false, timeout)
+	srv := kit.StartServer(false, false, 30*time.Second)
 	e := &c20env{c: c, srv: srv, timeout: timeout}
 	kit.H.On("rtsp.pull.enter", nil, func(string, []interface{}) { atomic.AddInt64(&e.pullOpen, 1) })
 	kit.H.On("rtsp.pull.exit", nil, func(string, []interface{}) { atomic.AddInt64(&e.pullOpen, -1) })
@@ -287,6 +294,15 @@ func c20Run(e *c20env, sh string, n int, sc kit.CamScript, requester, name strin
 	cam := kit.NewFakeCam()
 	defer cam.Close()
 	cam.SetScript(sc)
+	if sc.Fault == "silence" || sc.FaultStep != "PLAYING" {
+		// scripts whose expected outcome is a refusal anyway: a timeout caused by slow scheduling ends the same way
+		config.VerifSetNetTimeout(e.timeout)
+		defer config.VerifSetNetTimeout(30 * time.Second)
+	}
+	atomic.StoreInt64(&e.progress, 0)
+	if sc.FaultStep == "PLAYING" {
+		cam.HoldFault() // released once the requester is receiving (or has ended)
+	}
 	camAddr := cam.Addr
 	if sc.FaultStep == "CONNECT" {
 		cam.Close() // nobody listens
@@ -312,6 +328,22 @@ func c20Run(e *c20env, sh string, n int, sc kit.CamScript, requester, name strin
 	c.Distinct(name)
 	c.SetAdd("scripts", fmt.Sprintf("%s/%s", sc.FaultStep, sc.Fault))
 	success := sc.FaultStep == "PLAYING"
+	if success {
+		// the camera goes away only after the requester has started to receive (FLV: beyond the file header and the
+		// sequence headers), or has already been told off
+		need := int64(1)
+		if requester == "flv" {
+			need = 600
+		}
+		released := false
+		for i := 0; i < 70000 && !released; i++ {
+			if atomic.LoadInt64(&e.progress) >= need || len(ch) > 0 {
+				released = true
+			}
+			time.Sleep(time.Millisecond)
+		}
+		cam.ReleaseFault()
+	}
 	out, answered := e.awaitOutcome(ch, 6*e.timeout+4*time.Second)
 	if !answered {
 		// state decides: is a pull handshake goroutine parked in a network read long after NetTimeout?
@@ -391,7 +423,8 @@ func c20Run(e *c20env, sh string, n int, sc kit.CamScript, requester, name strin
 		ch2 := e.requesterFLV(reqPath, until2)
 		select {
 		case o2 := <-ch2:
-			if len(cam.Conns()) == 0 && before >= 0 {
+			// the camera records a connection when its accept loop gets to run: wait for that by state
+			if !e.await(func() bool { return len(cam.Conns()) > 0 }, time.Second) && before >= 0 {
 				detail["second_outcome"] = o2.kind
 				c.Violation(fmt.Sprintf("C20:later-request-did-not-reach-camera:%s/%s", sc.FaultStep, sc.Fault), detail)
 			}
@@ -428,7 +461,7 @@ func c20Concurrent(e *c20env, sh string, ci int) {
 	}
 	// let every requester either be served or be told off: wait until the camera has streamed to someone and the
 	// number of camera connections has been stable for a while
-	waitUntil(func() bool { return media.Get(reqPath) != nil }, 8*time.Second)
+	e.await(func() bool { return media.Get(reqPath) != nil }, 8*time.Second)
 	last, stable := -1, 0
 	waitUntil(func() bool {
 		n := len(cam.Conns())
